@@ -85,7 +85,11 @@ func init() {
 func runSlotProbe(end int) string {
 	ctx, cancel := context.WithTimeout(context.Background(), 60*time.Second)
 	defer cancel()
-	out, err := exec.CommandContext(ctx, os.Args[0], probeArg, fmt.Sprint(end)).Output()
+	exe, err := os.Executable()
+	if err != nil {
+		exe = os.Args[0]
+	}
+	out, err := exec.CommandContext(ctx, exe, probeArg, fmt.Sprint(end)).Output()
 	if err != nil {
 		return "err child " + err.Error()
 	}
@@ -210,9 +214,9 @@ func damagedMergeOp(c *core.Ctx, r *rand.Rand, blocks []*Block) {
 		}
 		spec := "-"
 		// the last block is damaged for sure when none was before
-		if r.Intn(2) == 0 || (i == len(blocks)-1 && !anyDamage) {
+		if r.Intn(3) == 0 || (i == len(blocks)-1 && !anyDamage) {
 			switch r.Intn(5) {
-			case 0, 1, 2:
+			case 0:
 				kind := []string{"short", "footer", "fieldcount"}[r.Intn(3)]
 				if dd, ok := damage(d, kind, 0); ok {
 					d, spec = dd, "h"
@@ -223,8 +227,8 @@ func damagedMergeOp(c *core.Ctx, r *rand.Rand, blocks []*Block) {
 				// one or two buckets; the first one in a third of the picks
 				var picked []int
 				idx := r.Intn(len(hks))
-				if r.Intn(3) == 0 {
-					idx = 0
+				if len(hks) > 1 && r.Intn(4) != 0 {
+					idx = 1 + r.Intn(len(hks)-1)
 				}
 				dd := d
 				ok := false
